@@ -55,8 +55,10 @@ func c11Conn(r *vf.Run, t *testing.T, id string, rng *rand.Rand) {
 	ending := rng.Intn(3)    // 0 stays, 1 EOF, 2 RST
 	lateReqs := rng.Intn(3)
 	blockedUploads := rng.Intn(3) == 0
+	raceReqs := []int{0, 1, 1, 2, 3}[rng.Intn(5)]
+	graceful := []int{0, 0, 1, 2}[rng.Intn(4)] // 1, 2: the GOAWAY is the second of a graceful shutdown (2: the client has processed the first)
 	var triggers []string
-	replay := map[string]any{"level": "conn", "blocked_uploads": blockedUploads, "in_flight": n, "last_class": lastClass, "code": code, "placement": placement, "ending": ending, "late_requests": lateReqs}
+	replay := map[string]any{"level": "conn", "requests_racing_the_goaway": raceReqs, "graceful_first_goaway": graceful, "blocked_uploads": blockedUploads, "in_flight": n, "last_class": lastClass, "code": code, "placement": placement, "ending": ending, "late_requests": lateReqs}
 	failed := false
 	fail := func(rule, detail string) {
 		if !failed {
@@ -169,9 +171,55 @@ func c11Conn(r *vf.Run, t *testing.T, id string, rng *rand.Rand) {
 		rt.Wait()
 		// GOAWAY, then PING: whatever the client had started to write is ordered before the PING's ACK
 		goawayAt := e.P.NFrames()
+		// requests handed to the connection at the very moment the GOAWAY arrives (no barrier in between): whichever of the
+		// write loop (about to open a stream) and the read loop (about to process the GOAWAY) goes first, once both have
+		// finished a stream above last-stream-id cannot be left waiting
+		var racing []*cliReq
+		var racingCalls []*rt.Call
+		for i := 0; i < raceReqs; i++ {
+			q := genCliReq(rng, id, 200+i, 100, 100)
+			racing = append(racing, q)
+			racingCalls = append(racingCalls, e.Do(q.Tag, q.build))
+		}
+		if graceful > 0 {
+			// RFC 7540 6.8: a server shutting down gracefully first says GOAWAY(2^31-1, NO_ERROR) and only later names the real
+			// last stream; it is the later frame that decides which requests are disclaimed
+			e.P.Write(rt.GoAway(1<<31-1, 0, "shutting down"))
+			if graceful == 2 {
+				rt.Wait()
+			}
+		}
 		e.P.Write(append(rt.GoAway(last, code, "going away"), rt.Ping(false, "afterGA!")...))
 		rt.Wait()
 		gaTime := time.Now()
+		if raceReqs > 0 {
+			arrived := map[string]uint32{}
+			for _, s := range e.RequestsSeen() {
+				tag, _ := s.Get("x-vtag")
+				arrived[tag] = s.Stream
+			}
+			for i, q := range racing {
+				sid := arrived[q.Tag]
+				done, err, _ := racingCalls[i].Outcome()
+				switch {
+				case sid == 0:
+					r.Inc("racing_requests_never_sent", 1)
+					if !done {
+						fail("racing-request-stranded", fmt.Sprintf("request %s was handed to the connection while GOAWAY(last-stream-id %d) arrived; it never reached the wire and is still unresolved with the client quiescent", q.Tag, last))
+					}
+				case sid > last:
+					r.Inc("racing_requests_sent_above_last_stream_id", 1)
+					if done && err == nil {
+						fail("disclaimed-request-reported-successful", fmt.Sprintf("request %s raced the GOAWAY onto stream %d, above last-stream-id %d, was never answered, yet its caller got success", q.Tag, sid, last))
+					}
+					if !done {
+						fail("disclaimed-request-not-failed-promptly", fmt.Sprintf("GOAWAY(last-stream-id %d, %s) was delivered and the client is quiescent, but request %s, which was handed to the connection as the GOAWAY arrived and went out on stream %d (above it), is still unresolved", last, errName(code), q.Tag, sid))
+					}
+				default:
+					r.Inc("racing_requests_sent_within_last_stream_id", 1)
+				}
+			}
+		}
 		// (3) requests above last-stream-id: resolved by now, never successfully
 		for i, q := range reqs {
 			sid := streamOf[q.Tag]
@@ -260,7 +308,7 @@ func c11Conn(r *vf.Run, t *testing.T, id string, rng *rand.Rand) {
 		e.Finish()
 	})
 	c01Outcome(r, id, res, triggers, replay, "C11")
-	r.Eval(vf.Hash("conn", n, lastClass, code, placement, ending, lateReqs, blockedUploads), true)
+	r.Eval(vf.Hash("conn", n, lastClass, code, placement, ending, lateReqs, blockedUploads, graceful), true)
 	if blockedUploads {
 		r.Inc("cases_with_uploads_waiting_for_window_at_goaway", 1)
 	}
